@@ -228,3 +228,26 @@ def lexically_in(node: ast.AST, container: ast.AST, field: str | None = None) ->
         if any(x is node for x in ast.walk(st)):
             return True
     return False
+
+
+def ancestors_of(node: ast.AST):
+    p = parent(node)
+    while p is not None and not isinstance(p, FuncNode):
+        yield p
+        p = parent(p)
+
+
+def block_of(st: ast.stmt) -> list[ast.stmt] | None:
+    """The statement list that directly contains *st*."""
+    p = parent(st)
+    if p is None:
+        return None
+    for f in ('body', 'orelse', 'finalbody'):
+        blk = getattr(p, f, None)
+        if isinstance(blk, list) and any(x is st for x in blk):
+            return blk
+    if isinstance(p, ast.Try):
+        for h in p.handlers:
+            if any(x is st for x in h.body):
+                return h.body
+    return None
